@@ -32,6 +32,8 @@ pub struct TB {
     pub attrs: Vec<Attribute>,
     /// further named fields, written after the pointer-sized ones
     pub extra_fields: Vec<(String, Type)>,
+    /// an explicit (redundant) `#[address]` on the first base field
+    pub first_base_address: Option<usize>,
 }
 
 impl TB {
@@ -47,6 +49,7 @@ impl TB {
             impl_fns: vec![],
             attrs: vec![],
             extra_fields: vec![],
+            first_base_address: None,
         }
     }
     pub fn add_to(&self, m: &mut Module) {
@@ -61,8 +64,12 @@ impl TB {
         for k in 0..self.lead_fields {
             statements.push(TypeStatement::field((Visibility::Public, format!("lead{k}").as_str()), word()));
         }
-        for (f, t) in &self.bases {
-            statements.push(TypeStatement::field((Visibility::Public, f.as_str()), Type::ident(t)).with_attributes([Attribute::base()]));
+        for (k, (f, t)) in self.bases.iter().enumerate() {
+            let mut attrs = vec![Attribute::base()];
+            if let (0, Some(a)) = (k, self.first_base_address) {
+                attrs.push(Attribute::address(a));
+            }
+            statements.push(TypeStatement::field((Visibility::Public, f.as_str()), Type::ident(t)).with_attributes(attrs));
         }
         for k in 0..self.nfields {
             statements.push(TypeStatement::field((Visibility::Public, format!("w{k}").as_str()), word()));
@@ -305,8 +312,12 @@ pub fn c06_shapes(first_id: usize) -> Vec<Case> {
         for depth in 1..=4usize {
             for nbases in 1..=3usize {
                 for base_mask in 0..(1u32 << nbases) {
-                    for (derived_block, lead, empty_root) in [(false, 0usize, false), (true, 0, false), (false, 1, false), (true, 2, false), (false, 0, true), (true, 1, true)] {
+                    for (derived_block, lead, empty_root, addr_first) in [(false, 0usize, false, false), (true, 0, false, false), (false, 1, false, false), (true, 2, false, false), (false, 0, true, false), (true, 1, true, false), (false, 0, false, true), (true, 0, false, true)] {
                         if empty_root && (base_mask & 1 == 0 || depth > 2) {
+                            continue;
+                        }
+                        // the redundant address only where the first base really sits at 0
+                        if addr_first && (base_mask & 1 == 0 || nbases < 2) {
                             continue;
                         }
                         let id = format!("k{}_", first_id + out.len());
@@ -334,6 +345,9 @@ pub fn c06_shapes(first_id: usize) -> Vec<Case> {
                                 d.bases = (0..nbases).map(|bi| (format!("base{bi}"), format!("B{bi}"))).collect();
                                 // an ordinary field may precede the first base: it is still the first base
                                 d.lead_fields = lead;
+                                if addr_first {
+                                    d.first_base_address = Some(0);
+                                }
                             } else {
                                 d.bases = vec![("base".into(), format!("D{}", k - 1))];
                             }
